@@ -414,6 +414,19 @@ func (os *offScen) judge() {
 		quiet = false
 		os.r.probe("final-commit-due-without-a-live-coordinator-connection")
 	}
+	if os.c.Config.OffsetsRetryMax == 0 {
+		// with no retry the single final attempt goes to the Broker object the manager cached; any earlier connection
+		// trouble with the coordinator (the client may have replaced that object) makes it fail inside the client
+		for _, c := range cconns {
+			c.mu.Lock()
+			trouble := (c.clientCloseUs > 0 && c.clientCloseUs < os.closeReturnedUs) || (c.serverCloseUs > 0 && c.serverCloseUs < os.closeReturnedUs)
+			c.mu.Unlock()
+			if trouble && os.closeReturned {
+				quiet = false
+				os.r.probe("final-commit-due-after-connection-trouble-with-no-retry")
+			}
+		}
+	}
 	for _, cr := range os.gm.commits {
 		if cr.e > os.closeInvokedE && !cr.accepted {
 			if cr.stale && os.c.Config.OffsetsRetryMax >= 1 {
